@@ -136,6 +136,17 @@ func materialise(v goval) (val any, hasIdentity bool) {
 		default:
 			return nPtr(9), false
 		}
+	case "embedded":
+		switch v.U {
+		case "value":
+			return embValue{Base: Base{Title: "t"}, Name: "n"}, false
+		case "ptr":
+			return embPtr{Base: &Base{Title: "t"}, Name: "n"}, false
+		case "ptrnil":
+			return embPtr{Name: "n"}, false
+		default:
+			return embUnexported{base: base{Title: "t"}, Name: "n"}, false
+		}
 	case "samename":
 		return []any{rowOne(), rowTwo()}, false
 	case "nilslice":
@@ -216,6 +227,22 @@ func materialise(v goval) (val any, hasIdentity bool) {
 		}
 	}
 	panic("unknown GoVal " + v.G)
+}
+
+// structs with an embedded struct (by value, by pointer, of an unexported type)
+type Base struct{ Title string }
+type base struct{ Title string }
+type embValue struct {
+	Base
+	Name string
+}
+type embPtr struct {
+	*Base
+	Name string
+}
+type embUnexported struct {
+	base
+	Name string
 }
 
 type dataCase struct {
